@@ -21,3 +21,13 @@ MUTANTS = [
       edits=[('src/bls12_381/bls12_381.cpp', 'Fr* res = reinterpret_cast<Fr*>(result);\n    res->val.read_big_endian(static_cast<const uint8_t*>(hash));\n    res->hash_reduce();',
               'Fr* out = reinterpret_cast<Fr*>(result);\n    out->val.read_big_endian(static_cast<const uint8_t*>(hash));\n    out->hash_reduce();')]),
 ]
+MUTANTS += [
+ dict(name='c19-gt_zero-is-Fq12-zero', prop='C19', expect='xconst|gt_zero',
+      edits=[('src/bls12_381/bls12_381.cpp', '(const embedded_pairing_bls12_381_fq12_t*) &Fq12::one;', '(const embedded_pairing_bls12_381_fq12_t*) &Fq12::zero;')]),
+ dict(name='c19-group_order-is-R', prop='C19', expect='xconst|group_order',
+      edits=[('src/bls12_381/bls12_381.cpp', '(const embedded_pairing_core_bigint_256_t*) &fr_modulus;', '(const embedded_pairing_core_bigint_256_t*) &fr_R;')]),
+ dict(name='c19-generator-pairing-word', prop='C19', tier='thorough', expect='xconst|gt_generator',
+      edits=[('include/bls12_381/pairing.hpp', '0xa01f85c5, 0x1972e433', '0xa01f85c4, 0x1972e433')]),
+ dict(name='c19-g1-generator-y-negated-typo', prop='C19', expect='xconst|g1affine_generator',
+      edits=[('include/bls12_381/curve.hpp', '.y = {{{{.std_words = { 0xce72271,', '.y = {{{{.std_words = { 0xce72272,')]),
+]
